@@ -128,10 +128,23 @@ def main():
         "notes": "Static analysis only (no gnmi code is executed). Every claim is at level 'other': structural necessary conditions decided on all CFG paths; see DESIGN.md §3/§4 and each evidence file's coverage.explanation / not_decided.",
         "not_applicable": [],
     }
+    # the level text is what the checker itself states it decides (single source of truth; the same text is the
+    # coverage.explanation of every evidence file): ./bin/gnmiverif -dump-explain
+    import subprocess
+    try:
+        explain = json.loads(subprocess.check_output([os.path.join(ROOT, "bin", "gnmiverif"), "-dump-explain"]))
+    except Exception as e:  # binary not built yet: keep the table's text
+        explain = {}
+        print("warning: -dump-explain unavailable:", e)
     for p in props:
         pid = p["id"]
         if pid in CLAIMED:
             tech, text, note, ref = CLAIMED[pid]
+            if pid in explain:
+                text = ("Static, all-paths necessary conditions (nothing of gnmi is executed). " + explain[pid]["explain"] +
+                        " NOT decided (behavioural remainder, static analysis not applicable): " + explain[pid]["not_covered"] + ".")
+                tech += "; shared clauses borrowed from the rule implementations of related properties (DESIGN.md §8.1); rename canonicalisation of anchors (§8.5)"
+                ref += ", §8"
             m["checks"].append({
                 "property_id": pid,
                 "quick_cmd": "./bin/gnmiverif -property %s -tier quick" % pid,
